@@ -12,19 +12,22 @@ for d in sorted(glob.glob(os.path.join(VERIF, "seeded", "*", "meta.json"))):
         sig += det.get("violation_signatures", [])
     sig = [re.sub(r"/tmp/eval/slot\d+/wt", "/repo", x) for x in sig][:3]
     caught = ", ".join(m.get("detected_by", [])) or "**not detected** (see note)"
+    if m.get("detected_tier"):
+        caught += " - " + m["detected_tier"]
     rows.append("| `%s` | %s | %s | %s | %s |" % (
         m["id"], (m.get("title", "") or "").replace("|", "/").replace("\n", " ")[:120],
         (m.get("needs_to_manifest", "") or "").replace("|", "/").replace("\n", " ")[:180],
         caught, ", ".join("`%s`" % x for x in sig)))
 total = len(metas)
 det = sum(1 for m in metas if m.get("detected_by"))
+thor_only = sum(1 for m in metas if m.get("detected_by") and m.get("detected_tier"))
 hist = [m for m in metas if m.get("history")]
 table = "| id | change | needs, to manifest | caught by | violation signatures |\n|----|--------|--------------------|-----------|----------------------|\n" + "\n".join(rows)
 notes = "\n".join("* `%s`: %s" % (m["id"], m["history"]) for m in hist)
 p = os.path.join(VERIF, "DESIGN.md")
 s = open(p).read()
 b, e = "<!-- SEEDED-TABLE-BEGIN -->", "<!-- SEEDED-TABLE-END -->"
-block = "%s\n\n%d seeded changes are kept, %d of them detected by the quick tier of their property's check.\n\n%s\n\nChanges that were missed at first (and what was strengthened), or are not detected:\n\n%s\n\n%s" % (b, total, det, table, notes, e)
+block = "%s\n\n%d seeded changes are kept, %d of them detected (%d of those only by a sanitizer lane of the thorough tier, the rest by the quick tier).\n\n%s\n\nChanges that were missed at first (and what was strengthened), or are not detected:\n\n%s\n\n%s" % (b, total, det, thor_only, table, notes, e)
 if b in s:
     s = s[:s.index(b)] + block + s[s.index(e) + len(e):]
 else:
